@@ -374,7 +374,8 @@ func getRes(c any, err error, id *ids) (string, any) {
 	if err != nil {
 		msg := status.Convert(err).Message()
 		if status.Code(err) != codes.NotFound {
-			msg = fmt.Sprintf("code=%d:%s", status.Code(err), msg)
+			// not the NotFound the property requires: a result shape no reference accepts
+			return vcoq.App("RClient", "(-3)"), map[string]any{"error_code": int(status.Code(err)), "msg": msg}
 		}
 		return vcoq.App("RGet", vcoq.App("NotFound", coqStr(msg))), map[string]any{"notfound": msg}
 	}
@@ -709,9 +710,9 @@ func genC12(o *vcoq.Out, r *vcoq.Rand, tier string) error {
 	o.Rule = "one history per generated router per round: registry ops (Add/Remove/Has/Get, wrong-type Add) around 2-3 RPCs for every method of the service (names: registered, fallback, factory, unknown, empty; child scripts: 0-4 messages, header, optional trailer, status or EOF, open/header errors; caller failing SendHeader or the i-th Send); bare-registry histories of 6-25 ops incl. nil clients and re-added clients; forced schedules: all interleavings of 2 and 3 concurrent calls (Get/Add/Remove, up to 3 atomic steps each) in several configurations plus random 3-4 thread schedules; default-name interceptors on every request type (name empty / set) and odd shapes. Non-trivial: history with at least one RPC / more than one change / schedule with at least two Gets of one name / request with a string name field. Distinct by the full input+observation term."
 	g := &c12{o: o, r: r, tier: tier}
 	o.Extra["rpcs_unary"], o.Extra["rpcs_stream"] = 0, 0
-	rounds, raws := 1, 200
+	rounds, raws := 3, 400
 	if tier == "thorough" {
-		rounds, raws = 12, 3000
+		rounds, raws = 30, 5000
 	}
 	t0 := time.Now()
 	for round := 0; round < rounds; round++ {
